@@ -41,7 +41,7 @@ def default_layout() -> Dict[str, Any]:
 def random_layout(rng: random.Random, need: Optional[Dict[str, set]] = None) -> Dict[str, Any]:
     """Random injective field->column map per table; the first column holds a mandatory field; optional fields mapped or
     omitted (fields in `need[table]` are always mapped); 0-5 unmapped junk columns; any table order; 0-3 blank rows."""
-    layout: Dict[str, Any] = {"columns": {}, "ncols": {}, "junk": {}, "table_order": rng.sample(["IN", "OUT", "INTRA"], 3), "blank_rows": rng.randint(0, 3)}
+    layout: Dict[str, Any] = {"columns": {}, "ncols": {}, "junk": {}, "table_order": rng.sample(["IN", "OUT", "INTRA"], 3), "blank_rows": rng.choice((0, 1, 1, 2, 3, 3, 12, 40, 130))}
     for table, fields in FIELDS.items():
         must = set(MANDATORY[table]) | (need or {}).get(table, set())
         chosen = [f for f in fields if f in must or rng.random() < 0.6]
